@@ -300,15 +300,6 @@ Proof.
       exists e. split; [reflexivity|]. unfold flat. cbn [map concat app]. split; assumption.
 Qed.
 
-Theorem prioritized_meets_spec streams : spec_prioritized streams (prioritized streams) = true.
-Proof.
-  unfold prioritized, spec_prioritized.
-  destruct (prio_spec streams [] [] (fun k (HF : In k []) => match HF with end)) as (extra & -> & Hs & Hall).
-  cbn [app] in *. apply andb_true_iff. split.
-  - apply forallb_forall. intros c Hc. apply memc_In. apply Hall. exact Hc.
-  - apply Sub_subseqb. exact Hs.
-Qed.
-
 Theorem prioritized_complete streams c : In c (flat streams) -> In c (prioritized streams).
 Proof.
   intros Hc. unfold prioritized.
@@ -377,4 +368,51 @@ Proof.
   destruct (prio_stream_spec _ _ _ _ _ _ E Hb) as (e & -> & Hs & Hall & _ & _ & Hfresh).
   exists e. repeat split; auto.
   intros c Hc Hin. apply (Hfresh c Hc). apply Ha. exact Hin.
+Qed.
+
+(** ---- the suppression clause of the boolean specification ---- *)
+Lemma countc_app c a b : countc c (a ++ b) = (countc c a + countc c b)%nat.
+Proof. unfold countc. rewrite filter_app, app_length. reflexivity. Qed.
+
+Lemma countc_notin c l : ~ In c l -> countc c l = 0%nat.
+Proof.
+  unfold countc. induction l as [|x l IH]; intros H; cbn [filter length]; [reflexivity|].
+  destruct (cid_eqb c x) eqn:E.
+  - apply cid_eqb_eq in E. subst. exfalso. apply H. left. reflexivity.
+  - apply IH. intros Hin. apply H. right. exact Hin.
+Qed.
+
+Lemma countc_nodup c l : NoDup l -> In c l -> countc c l = 1%nat.
+Proof.
+  unfold countc. induction l as [|x l IH]; intros Hnd Hin; [destruct Hin|].
+  inversion Hnd; subst. cbn [filter]. destruct (cid_eqb c x) eqn:E.
+  - apply cid_eqb_eq in E. subst. cbn [length]. f_equal. apply (countc_notin x l). assumption.
+  - destruct Hin as [->|Hin]; [assert (cid_eqb c c = true) by (apply cid_eqb_eq; reflexivity); congruence|].
+    apply IH; assumption.
+Qed.
+
+Lemma removelast_snoc {A} (l : list A) x : removelast (l ++ [x]) = l.
+Proof. apply removelast_last. Qed.
+
+Lemma flat_app a b : flat (a ++ b) = flat a ++ flat b.
+Proof. unfold flat. rewrite map_app, concat_app. reflexivity. Qed.
+
+Theorem prioritized_meets_spec streams : spec_prioritized streams (prioritized streams) = true.
+Proof.
+  unfold spec_prioritized. apply andb_true_iff. split.
+  - unfold prioritized.
+    destruct (prio_spec streams [] [] (fun k (HF : In k []) => match HF with end)) as (extra & -> & Hs & Hall).
+    cbn [app] in *. apply andb_true_iff. split.
+    + apply forallb_forall. intros c Hc. apply memc_In. apply Hall. exact Hc.
+    + apply Sub_subseqb. exact Hs.
+  - destruct streams as [|s0 rest] using rev_ind; [reflexivity|].
+    rewrite removelast_snoc. apply forallb_forall. intros c Hc. apply Nat.eqb_eq.
+    assert (Hfirst : In c (prioritized (streams ++ [None]))).
+    { apply prioritized_complete. rewrite flat_app. apply in_app_iff. left. exact Hc. }
+    destruct s0 as [last|].
+    + destruct (prioritized_suppression streams last) as (Hnd & extra & -> & _ & Hfresh & _).
+      rewrite countc_app, (countc_nodup c _ Hnd Hfirst), (countc_notin c extra); [reflexivity|].
+      intros Hin. apply (Hfresh c Hin). exact Hfirst.
+    + destruct (prioritized_suppression streams []) as (Hnd & _).
+      apply countc_nodup; assumption.
 Qed.
